@@ -41,6 +41,7 @@ structure FieldMeta where
   path : B
   header : B
   cookie : B
+  dflt : B := []      -- Tag.Get("default")
   deriving DecidableEq, Repr, Inhabited
 
 inductive Ty
@@ -186,6 +187,13 @@ def schemaNameAsIs (name pkgPath : B) : B :=
 inductive Kind | none | boolean | integer | number | string | object | array
   deriving DecidableEq, Repr, Inhabited
 
+/-- a value `parseValue` produces from a tag (the `default` of a parameter schema) -/
+inductive DV
+  | str (v : B)
+  | num (v : B)       -- as rendered
+  | bool (v : Bool)
+  deriving DecidableEq, Repr, Inhabited
+
 /-- the scalar members of `model.Schema` the generator can set -/
 structure Head where
   kind : Kind := .none
@@ -200,6 +208,7 @@ structure Head where
   minLength : Option Nat := none
   maxLength : Option Nat := none
   required : List B := []
+  dflt : Option DV := none               -- `Default any` (from the `default` tag of a parameter field)
   deriving DecidableEq, Repr, Inhabited
 
 mutual
